@@ -7,6 +7,8 @@ require (
 	github.com/artela-network/aspect-core v0.4.8-rc8
 	github.com/artela-network/aspect-runtime v0.4.8-rc8
 	github.com/ethereum/go-ethereum v1.12.0
+	github.com/holiman/uint256 v1.2.2
+	google.golang.org/protobuf v1.30.0
 )
 
 require (
@@ -29,7 +31,6 @@ require (
 	github.com/google/uuid v1.3.0 // indirect
 	github.com/gorilla/websocket v1.5.0 // indirect
 	github.com/holiman/bloomfilter/v2 v2.0.3 // indirect
-	github.com/holiman/uint256 v1.2.2 // indirect
 	github.com/kr/pretty v0.3.1 // indirect
 	github.com/kr/text v0.2.0 // indirect
 	github.com/mattn/go-runewidth v0.0.9 // indirect
@@ -49,7 +50,6 @@ require (
 	golang.org/x/exp v0.0.0-20230206171751-46f607a40771 // indirect
 	golang.org/x/sys v0.8.0 // indirect
 	golang.org/x/text v0.9.0 // indirect
-	google.golang.org/protobuf v1.30.0 // indirect
 )
 
 replace github.com/artela-network/artela-evm => /repo
